@@ -33,6 +33,7 @@ type Program struct {
 	MirrorDiff []string
 	fnByKey   map[string]*ssa.Function
 	Axioms    []axiomDef
+	Guarded   []guardedField
 	gfCache   map[*ssa.Global]*ssa.Function
 	gfDone    map[*ssa.Global]bool
 }
@@ -190,6 +191,7 @@ func (p *Program) addContractFile(cf *ContractFile) {
 	for _, sf := range cf.Specs {
 		p.Specs[sf.Name] = sf
 	}
+	p.Guarded = append(p.Guarded, cf.Guarded...)
 	for _, ax := range cf.Axioms {
 		p.Axioms = append(p.Axioms, axiomDef{cl: ax, file: cf})
 	}
